@@ -78,6 +78,8 @@ class EquationSolver(object):
         if self.RunEquationReduction:
             parser.EquationReduction()
         self.Parser = parser
+        # The variable list is a cache of the parser's variables: a new parser invalidates it.
+        self.VariableList = []
         if self.MaxTime is not None:
             self.Parser.MaxTime = self.MaxTime
         if len(msg) > 0:
